@@ -25,7 +25,6 @@ package main
 import (
 	"crypto/sha256"
 	"encoding/hex"
-	"encoding/json"
 	"fmt"
 	"os"
 	"sort"
@@ -316,51 +315,16 @@ func main() {
 
 // runReplayFile re-runs one recorded history (./check C19 --replay file).
 func runReplayFile(path string) {
-	b, err := os.ReadFile(path)
+	g, p, seed, pairs, files, err := projgen.LoadReplay(path)
 	if err != nil {
 		vlib.Infra("replay: %v", err)
-	}
-	var rec struct {
-		Scenario struct {
-			Seed  int64             `json:"seed"`
-			Init  json.RawMessage   `json:"init"`
-			Edges []json.RawMessage `json:"edges"`
-			Pairs []string          `json:"pairs"`
-			Files []string          `json:"files"`
-		} `json:"scenario"`
-	}
-	if err := json.Unmarshal(b, &rec); err != nil || len(rec.Scenario.Edges) == 0 {
-		vlib.Infra("replay: not a C19 scenario: %v", err)
-	}
-	quote := func(v any) string {
-		j, _ := json.Marshal(v)
-		q, _ := json.Marshal(string(j))
-		return string(q)
-	}
-	printed := []string{quote(map[string]json.RawMessage{"init": rec.Scenario.Init})}
-	for _, e := range rec.Scenario.Edges {
-		printed = append(printed, quote(e))
-	}
-	g, err := projgen.LoadGraph(printed)
-	if err != nil {
-		vlib.Infra("replay: %v", err)
-	}
-	var p []*projgen.REdge
-	cur := g.Inits[0]
-	for range rec.Scenario.Edges {
-		if len(g.Out[cur]) == 0 {
-			break
-		}
-		e := g.Out[cur][0]
-		p = append(p, e)
-		cur = e.T
 	}
 	if _, err := projgen.BuildPgen(); err != nil {
 		vlib.Infra("%v", err)
 	}
 	c := vlib.NewCheck("C19", "model_checking")
 	h := &handler{c: c, buildBudget: 10}
-	rep := &projgen.Replayer{G: g, H: h, Name: "c19_replay", Seed: rec.Scenario.Seed, Pairs: rec.Scenario.Pairs, Files: rec.Scenario.Files, Workers: 1}
+	rep := &projgen.Replayer{G: g, H: h, Name: "c19_replay", Seed: seed, Pairs: pairs, Files: files, Workers: 1}
 	rep.Run(map[string]*projgen.Trie{g.Inits[0]: projgen.PathTrie([][]*projgen.REdge{p})})
 	fmt.Printf("C19 replay: %s: %d edges replayed\n", projgen.PathString(p), rep.Stats.Edges)
 	if len(rep.Errs)+len(h.infra) > 0 {
